@@ -2,6 +2,7 @@ package props
 
 import (
 	"fmt"
+	"regexp"
 	"strings"
 	"testing"
 
@@ -342,7 +343,36 @@ func genSrcCase(t *rapid.T) *SrcCase {
 	return &SrcCase{Src: c.Src}
 }
 
+var (
+	timeLitRe   = regexp.MustCompile(`'[^']*'`)
+	strtotimeRe = regexp.MustCompile(`strtotime`)
+)
+
+// clockDependent: a time literal that is not one of the absolute forms reads the wall clock
+// ('t', 'now', '+1 day' ...), and so may any strtotime call on a computed string: two back ends
+// run at different instants and may legitimately differ.
+func clockDependent(src string) bool {
+	if strtotimeRe.MatchString(src) {
+		return true
+	}
+	for _, lit := range timeLitRe.FindAllString(src, -1) {
+		abs := false
+		for _, t := range gen.TimeTexts {
+			if lit == "'"+t+"'" {
+				abs = true
+			}
+		}
+		if !abs {
+			return true
+		}
+	}
+	return strings.Count(src, "'")%2 == 1
+}
+
 func checkSrcDiff(c *SrcCase) *Outcome {
+	if clockDependent(c.Src) {
+		return skip("domain:source-may-read-the-wall-clock")
+	}
 	pc := &ProgCase{Env: srcEnvTypes, Vals: srcEnvVals, Extra: run.StdHarness}
 	r := &CaseRun{Src: c.Src, Core: &m.Expr{K: "var", Name: "?"}, Flags: map[string]int{}}
 	for _, be := range run.AllBackends {
